@@ -1116,7 +1116,9 @@ def build_cases(ctx, run):
     for tag, P in invalid_params(rng):
         run.add_create(P, tag, expect_invalid=True)
     # angles: every unit x cosmology (through a Configuration), custom cosmology through ScalesConfig
-    zs = [0.25, 0.5, 1.0, 2.0] if ctx.quick() else [0.0625, 0.25, 0.5, 0.75, 1.0, 2.0, 3.0]
+    # from just above 0 (the low-redshift bins of C01) to beyond the turnover of the angular-diameter distance
+    zs = [2.0 ** -10, 2.0 ** -8, 0.0625, 0.25, 0.5, 1.0, 2.0, 6.0] if ctx.quick() else \
+        [2.0 ** -14, 2.0 ** -10, 2.0 ** -8, 2.0 ** -6, 0.0625, 0.25, 0.5, 0.75, 1.0, 2.0, 3.0, 6.0, 10.0]
     for ui, u in enumerate(UNITS):
         for ci, ident in enumerate([0, 1, 2]):
             reps = ctx.n(1, 4)
